@@ -416,6 +416,15 @@ impl CoreDocument {
     if self.resolve_method(method.id(), None).is_some() || self.service().query(method.id()).is_some() {
       return Err(Error::MethodInsertionError);
     }
+    // An embedded method must not share its identifier with any entry of a verification relationship, including
+    // references that do not resolve to a method of this document (these are not found by the check above).
+    if matches!(scope, MethodScope::VerificationRelationship(_))
+      && self
+        .verification_relationships()
+        .any(|method_ref| method_ref.id() == method.id())
+    {
+      return Err(Error::MethodInsertionError);
+    }
     match scope {
       MethodScope::VerificationMethod => self.data.verification_method.append(method),
       MethodScope::VerificationRelationship(MethodRelationship::Authentication) => {
